@@ -292,6 +292,8 @@ void gvt_msg_drain(void)
 		// the other threads of this round record it from the main loop: keep the per-thread records aligned
 		if(unlikely(current_gvt != 0.0))
 			stats_on_gvt(current_gvt);
+		// the round waits for the remote messages sent before it: somebody has to receive them
+		mpi_remote_msg_drain();
 	}
 
 	VERIF_TRACE(VT_STAGE, 4, thread_phase, 0, 0);
